@@ -63,6 +63,11 @@ impl S3Storage {
             let mut next_key_addr = current_key_file_size;
 
             for (key, value) in keys_to_update {
+                if value.state == ValueStatus::Deleted {
+                    // A removed key is left out of the rewritten objects, writing it brought it
+                    // back as a live key (in memory at once and on disk after a restart)
+                    continue;
+                }
                 changed_keys = changed_keys + 1;
 
                 values_file.put_slice(&value.value.len().to_le_bytes());
